@@ -318,7 +318,10 @@ func c09(c *Ctx) {
 		ap := calls(pc, applicatorApply)
 		fcs := foreignControllerTests(pc)
 		gets := calls(pc, clientGet)
-		if len(ap) != 1 || len(fcs) != 1 || len(gets) != 1 {
+		if len(ap) == 1 && len(gets) == 1 && len(fcs) == 0 {
+			// the secret is fetched and applied, and nothing in between asks who controls it
+			c.R.Bad(site(ap[0])+" source-controlled-by-xr", c.pos(ap[0].Pos()), "the source secret is copied to the claim without any test that its controller is the XR (GetControllerOf(secret).UID == from.GetUID()): a secret the XR merely could control, or that nobody controls, is propagated")
+		} else if len(ap) != 1 || len(fcs) != 1 || len(gets) != 1 {
 			c.R.Unknown(load.FuncName(pc)+": shape", c.pos(pc.Pos()), "expected Get(source secret), one explicit controller-UID test on it, one Apply")
 		} else {
 			c.requireCross(site(ap[0])+" source-controlled-by-xr", ap[0], fcs[0].SameUID, "controller UID of the source secret == from.GetUID()")
@@ -331,6 +334,9 @@ func c09(c *Ctx) {
 						nData++
 						r, p, ok := flow.AccessPathC(st.Val)
 						src := flow.Root(underIface(cfgx.CallArgs(gets[0])[2]))
+						if ok && r != src && (sole(r) == src || flow.Root(sole(r)) == src) {
+							r = src // handed over through the result temporary of an inlined helper
+						}
 						// or a fresh map filled, entry by entry and without skipping, from
 						// a range over the source secret's data
 						if mm, isMake := sole(st.Val).(*ssa.MakeMap); isMake && !(ok && p == "Data" && r == src) {
